@@ -176,6 +176,14 @@ pub fn run_cases(
         fold(ctx, rep, idx, &out.to_json(), case_desc);
         return;
     }
+    if ctx.param("inproc").is_some() {
+        // sanitizer / Miri stages: no child processes, cases run sequentially in this process
+        for idx in 0..total {
+            let out = f(idx);
+            fold(ctx, rep, idx, &out.to_json(), case_desc);
+        }
+        return;
+    }
     let outcomes: Mutex<Vec<(u64, Outcome)>> = Mutex::new(Vec::new());
     child::run_children(total, ctx.jobs as u64, cpu_budget_s, Duration::from_secs(600), &ctx.work, &|o| {
         let idx = match &o {
